@@ -70,6 +70,7 @@ impl DeletionQuery {
                         date,
                     })
                 } else {
+                    let mut reference_found = false;
                     for edge_deletion in &del.references {
                         let dest = parameters
                             .params
@@ -82,6 +83,7 @@ impl DeletionQuery {
 
                         let edge = Edge::get(&src, &edge_deletion.label, &dest, conn)?;
                         if let Some(edge) = edge {
+                            reference_found = true;
                             deletion_query.edges.push(EdgeDelete {
                                 edge: *edge,
                                 src_name: del.name.clone(),
@@ -89,6 +91,11 @@ impl DeletionQuery {
                                 date,
                             });
                         }
+                    }
+                    //the source row is only written again when a reference is really removed:
+                    //the rights of the caller are checked on the references it removes
+                    if !reference_found {
+                        continue;
                     }
                     let mut node = *node;
                     deletion_query.updated_nodes_previous_date.push(node.mdate);
